@@ -129,3 +129,24 @@ func VerifC05_Pages() {
 		}
 	}
 }
+
+// VerifC05_CreateFrame: a handle from Create that is dropped before its first Sync leaves the
+// file exactly as creation left it (zero-filled, full length): Close never flushes.
+func VerifC05_CreateFrame() {
+	h := vrtChooseHeaderFrom([]string{"1s:2s", "1s:2s,2s:6s"}, Sum, 0.5)
+	now := vrtInstant(h, "now")
+	vrtAssumeClock(h, now)
+	path := vrt.NoFile("c05c.wsp")
+	w, err := Create(path, h.archiveInfoList, Sum, 0.5)
+	vrt.Assume(err == nil)
+	vrt.Reach("pre")
+	before := vrt.ReadFile(path)
+	vrt.Assert(int64(len(before)) == h.ExpectedFileSize(), "C05.create file has its final length from creation on")
+	vrtC05Op(w, h, now)
+	_ = w.Close()
+	after := vrt.ReadFile(path)
+	vrt.Assert(len(after) == len(before), "C05.create length unchanged by an unsynced session")
+	for i := range before {
+		vrt.Assert(after[i] == before[i], "C05.create an unsynced session on a created handle leaves the file as creation left it")
+	}
+}
